@@ -69,7 +69,8 @@ class KDTree:
         queue.append(root)
         while len(queue)>0:
             leaf = queue.popleft()
-            if leaf.size <= max_leaf_size: # the leaf has the correct size -> add it to the tree
+            if leaf.size <= max_leaf_size or self._all_points_equal(leaf.points):
+                # the leaf has the correct size (or cannot be split: all its points coincide) -> add it to the tree
                 self.nodes.append(leaf)
             else: # the leaf needs to be split
                 # split the points according to the current axis
@@ -94,6 +95,9 @@ class KDTree:
                 queue.append(leaf_less)
                 queue.append(leaf_more)
 
+    def _all_points_equal(self, pt_idx) -> bool:
+        return pt_idx.size>0 and bool((self.points[pt_idx] == self.points[pt_idx[0]]).all())
+
     def _new_leaf(self, axis, parent, points):
         leaf = KDTree.Leaf(self._nid, axis, parent, points)
         self._nid +=1
@@ -103,6 +107,10 @@ class KDTree:
         pts_ax = self.points[pt_idx,axis] # 1D array of the considered coordinate to split 
         pivot = self._find_pivot(pts_ax)
         pivot_filter = pts_ax <= pivot
+        if pivot_filter.all():
+            # the pivot is the maximum along this axis: '<=' would send every point to the same side
+            # (and forever so, for repeated points). Split strictly below the pivot instead.
+            pivot_filter = pts_ax < pivot
         idx_less = np.extract(pivot_filter, pt_idx)
         idx_more = np.extract(~pivot_filter, pt_idx)
         return pivot, idx_less, idx_more
